@@ -160,6 +160,11 @@ impl Config {
         self.validate_data_during_index_regen = value;
     }
 
+    #[cfg(pearl_verif)]
+    pub fn verif_set_debounce_interval_ms(&mut self, value: u64) {
+        self.debounce_interval_ms = value;
+    }
+
     pub fn set_max_dirty_bytes_before_sync(&mut self, value: u64) {
         self.max_dirty_bytes_before_sync = value;
     }
